@@ -35,14 +35,17 @@ template <class E> struct TriCase {
         if (diag) { if (structure == 2) im = 0; if (structure == 3) { re = 0; im = 0; } if (structure == 4) re = 0; }   // diagonal invariants
         return C(re, im);
     }
-    std::string key(const std::string& op) const { return "tri:" + op + ":" + sname(structure) + ":" + ET<E>::name(); }
+    // keys name the operation class and scalar/composite elements (structure and element type are in the witness)
+    static std::string opClass(const std::string& op) { size_t d = op.find("-grow"); if (d == std::string::npos) d = op.find("-shrink"); if (d == std::string::npos) d = op.find("-same"); return d == std::string::npos ? op : op.substr(0, d); }
+    bool taintedByResizeKeep = false;   // composite elements: a size-changing resizeKeep leaves a wrong leading dimension behind (finding); later mismatches are its consequences
+    std::string key(const std::string& op) const { return "tri:" + (taintedByResizeKeep ? std::string("resizeKeep") : opClass(op)) + (K == 1 ? ":scalar-elt" : ":composite-elt"); }
     bool compare(Matrix_<E>& m, const std::string& op) {
         c.cover(op + "|" + sname(structure) + "|" + ET<E>::name());
         if (m.nrow() != nr || m.ncol() != nc) { c.viol("tri-shape:" + op + ":" + sname(structure) + ":" + ET<E>::name(), vh::Json::obj().set("lib_nrow", m.nrow()).set("lib_ncol", m.ncol()).set("nrow", nr).set("ncol", nc).set("history", hj())); return false; }
         for (int j = 0; j < nc; ++j) for (int i = 0; i < nr; ++i) {
             E e = m.getAnyElt(i, j); C got[K]; ET<E>::get(e, got);
             for (int k = 0; k < K; ++k) if (!sameC(got[k], refElt(i, j, k))) {
-                c.viol(key(op), vh::Json::obj().set("i", i).set("j", j).set("scalar", k).set("expected", jC(refElt(i, j, k))).set("got", jC(got[k])).set("nrow", nr).set("ncol", nc).set("history", hj()));
+                c.viol(key(op), vh::Json::obj().set("structure", sname(structure)).set("elt", ET<E>::name()).set("op", op).set("i", i).set("j", j).set("scalar", k).set("expected", jC(refElt(i, j, k))).set("got", jC(got[k])).set("nrow", nr).set("ncol", nc).set("history", hj()));
                 return false;
             }
         }
@@ -79,6 +82,7 @@ template <class E> struct TriCase {
             } else if (op == 1) {   // resizeKeep (square)
                 int q0 = n(), q1 = r.integer(1, 7); std::vector<C> old = up;
                 log("resizeKeep(" + std::to_string(q1) + "," + std::to_string(q1) + ")");
+                if (K > 1 && q1 != q0) taintedByResizeKeep = true;
                 m.resizeKeep(q1, q1); nr = nc = q1; up.assign((size_t)q1 * q1 * K, C(0, 0));
                 for (int j = 0; j < std::min(q0, q1); ++j) for (int i = 0; i <= j; ++i) for (int k = 0; k < K; ++k) up[(size_t)(i + j * q1) * K + k] = old[(size_t)(i + j * q0) * K + k];
                 fillStored(m, std::min(q0, q1));
